@@ -45,6 +45,7 @@ WHAT = {
  'bare abstract collections got no implicit': ("C15", "normalize_type(typing.Sequence) != normalize_type(typing.Sequence[Any]) (also Iterable, Collection, MutableSequence, AbstractSet, MutableSet, Mapping, MutableMapping): no implicit parameters, no loader for the bare hint (congruence seq_bare; builds)"),
  'IndexError / AttributeError instead of ProviderNotFoundError': ("C14", "get_converter for a field pair involving Tuple[()] -> IndexError, int | str opposite a model -> AttributeError, bare abstract collections -> IndexError, instead of ProviderNotFoundError (odd_hints s='pipe_int_str' d='G_int')"),
  'compared loaded members by equality': ("C02", "Literal[Level.HIGH, 1] (IntEnum): strict load(2) rejected (no enum member loadable next to a 0/1/bool case), lax load(1) -> Level.LOW which is not listed; Literal[SCol.A, 'b'] load('b') -> SCol.B; also breaks C01 and C07 (litenum_load_IntEnum_and_1 di=4, litenum_rt_IntEnum_and_1, litenum_pair_IntEnum_and_1)"),
+ 'set mixing Decimal and float nan': ("C08", "get_literal_expr({Decimal('1'), float('nan')}) raised decimal.InvalidOperation (sorting the set): loader creation fails for a model with such a default (lit_container kind=2 n=2 s0=12 s1=7; found first by a native fuzz of the renderer)"),
  'generic type aliases': ("C16", "type RevMap[K, V] = dict[V, K]: RevMap[int, str] loaded as dict[int, str] ({'a': 1} rejected, {1: 'a'} accepted) (alias_RevMap_int_str)"),
 }
 WHAT.update(json.load(open('/verif/tools/fixed_extra.json')) if __import__('os').path.exists('/verif/tools/fixed_extra.json') else {})
